@@ -140,6 +140,9 @@ func (c *Conn) ReadFrom(r io.Reader) (n int64, err error) {
 
 	// if there is no available buffer, create one.
 	if !bufNode.recyclable() || cap(bufNode.buf) == 0 {
+		// force a new node: Malloc would otherwise hand out the spare room of
+		// the current non-recyclable node, which Flush never resets
+		c.outputBuffer.len = 0
 		c.Malloc(block4k)
 		c.outputBuffer.write.Reset()
 		c.outputBuffer.len = cap(c.outputBuffer.write.buf)
